@@ -677,6 +677,7 @@ def run(chk):   # noqa
     _viewpin_rule(chk, prog, S)
     _threadedmark_rule(chk, prog)
     _ringmark_rule(chk, prog)
+    _stackarg_rule(chk, prog, S)
 
 
 def _threadedmark_rule(chk, prog):
@@ -963,3 +964,57 @@ def _viewpin_rule(chk, prog, S):
                               "re-validation after the call-back was found" % (
                                   fn.name, views[0][1].callee, c.text()[:50], f.name, bad.loc))
     chk.floor(rule, 6, n)
+
+
+def _stackarg_rule(chk, prog, S):
+    """A helper that is handed a pointer into the running fiber's stack (fiber->data + offset) is in the position of a
+    C function with its argv: any call that can re-enter the interpreter on this fiber may reallocate the stack, and the
+    pointer must not be used afterwards.  vm_do_trace printed its arguments with janet_eprintf one by one - with
+    (dyn :err) bound to a function every print runs Janet code on the same fiber."""
+    rule = "C01-STACKARG"
+    chk.rule(rule, "a function that receives a pointer into the running fiber's stack as an argument does not use it after a call that can relocate that stack")
+    targets = {}
+    for fn in prog.all_funcs():
+        for c in fn.nodes:
+            if c.k != "call" or not c.callee:
+                continue
+            for i, a in enumerate(c.args):
+                if any(y.k == "mem" and y.field == "data" and y.rec == "JanetFiber" for y in a.walk()) and \
+                        any(y.k == "bin" and y.op == "+" for y in a.walk()):
+                    g = prog.func(c.callee, fn.tu) or next((f for f in prog.all_funcs() if f.name == c.callee), None)
+                    if g is not None and i < len(g.params) and "*" in g.params[i]["t"]:
+                        targets.setdefault((g.tu.name, g.name), (g, set()))[1].add(g.params[i]["n"])
+    n = 0
+    for (_, _), (g, params) in sorted(targets.items()):
+        if g.is_cfun_sig() or g.name in ("run_vm",):
+            continue                    # argv of cfunctions: C01-ARGV
+        relocs = [c for c in g.nodes if c.k == "call" and S.call_in(g, c, S.may_relocate)]
+        for pn in sorted(params):
+            n += 1
+            chk.instance(rule)
+            chk.analysed(g)
+            if not relocs:
+                chk.ok(rule, "%s: `%s` - no call in the function can relocate the stack" % (g.name, pn))
+                continue
+
+            def transfer(st, x, pn=pn):
+                if x.k == "asg" and x.op == "=" and is_ref(x.kids[0]) and x.kids[0].name == pn:
+                    return frozenset()
+                if x.k == "call" and x in relocs:
+                    return frozenset(["stale"])
+                return st
+            IN, OUT = flow.forward(g, frozenset(), transfer, lambda a, b: a | b)
+            bad = None
+            for x, st in flow.states_at(g, IN, transfer):
+                if "stale" in st and x.k == "ref" and x.name == pn and bad is None:
+                    p_ = x.parent
+                    if p_ is not None and p_.k == "asg" and p_.op == "=" and p_.kids[0] is x:
+                        continue
+                    bad = x
+            if bad is None:
+                chk.ok(rule, "%s: `%s` is not used after a relocating call" % (g.name, pn))
+            else:
+                chk.violation(rule, g.tu.name, g.name, pn, bad.loc,
+                              "`%s` points into the running fiber's stack (callers pass fiber->data + offset) and is used at %s after `%s`, "
+                              "which can run Janet code on the same fiber and reallocate that stack" % (pn, bad.loc, relocs[0].text()[:40]))
+    chk.floor(rule, 3, n)
